@@ -60,8 +60,28 @@ def points(space, dk='any', count=3):
     return out
 
 
+# data elements handed to constructors since the last `start_recording()`: the caller-owned
+# objects an operator may keep by reference (history clauses of C05 / C06 modify them later)
+CREATED = []
+
+
+def start_recording():
+    del CREATED[:]
+
+
 def el(space, k=0, dk='any'):
-    return S.from_flat(space, points(space, dk, 5)[k])
+    e = S.from_flat(space, points(space, dk, 5)[k])
+    if len(CREATED) > 256:
+        del CREATED[:128]
+    CREATED.append(e)
+    return e
+
+
+def build_recording(spec, o):
+    """(operator, [data elements created by `el` while it was built])."""
+    start_recording()
+    op = spec.build(o)
+    return op, [e for e in CREATED if hasattr(e, 'space')]
 
 
 class OSpec(object):
@@ -203,6 +223,9 @@ def _leaf(name, sp):
     if name == 'Lap':
         # a stencil: correct for distinct x / out, not safe for out aliased with x
         return odl.Laplacian(sp, pad_mode='symmetric')
+    if name == 'CMS':
+        # complex -> real; its derivative keeps the base point by reference
+        return odl.ComplexModulusSquared(sp)
     if name == 'PD':
         return odl.PartialDerivative(sp, axis=0, method='central', pad_mode='order1')
     raise KeyError(name)
@@ -662,6 +685,8 @@ SPECS = [
                                 dict(k='vecsum', A='V')], _expr),
     OSpec('OperatorComp', [dict(k='comp', A='Lap', B='M', space='ud4'), dict(k='comp', A='M', B='Lap', space='ud4'), dict(k='comp', A='PD', B='M', space='ud4'), dict(k='comp', A='A', B='M'), dict(k='comp', A='P2', B='A'),
                            dict(k='comp', A='A', B='P2'), dict(k='comp_tmp', A='sin', B='P2'),
+                           dict(k='comp_tmp', A='CMS', B='M', space='cn2'),
+                           dict(k='comp', A='CMS', B='Ac', space='cn2'),
                            dict(k='comp', A='Ac', B='M', space='cn2'), dict(k='comp', A='P3', B='Aff'),
                            dict(k='comp', A='V', B='V'), dict(k='comp', A='M', B='V'),
                            dict(k='comp', A='V', B='M')],
@@ -675,6 +700,8 @@ SPECS = [
           _expr),
     OSpec('OperatorRightScalarMult', [dict(k='rscal', A='Lap', B='M', space='ud4'), dict(k='rscal', A='M', B='Lap', space='ud4'), dict(k='rscal', A='PD', B='M', space='ud4'), dict(k='rscal', A='A'), dict(k='rscal', A='P2'),
                                       dict(k='rscal_tmp', A='sin'), dict(k='rscal', A='P3', a=-0.5),
+                                      dict(k='rscal_tmp', A='CMS', space='cn2'),
+                                      dict(k='rscal', A='CMS', space='cn2', a=-0.5),
                                       dict(k='rscal', A='Ac', space='cn2'), dict(k='rscal', A='V')], _expr),
     OSpec('OperatorLeftVectorMult', [dict(k='lvec_ce', A='A', space='rn2'), dict(k='lvec_ce', A='M', space='rn2', a=[1.0, -2.0]),
                                      dict(k='rvec_ce', A='A', space='rn2'), dict(k='lvec', A='Lap', B='M', space='ud4'), dict(k='lvec', A='M', B='Lap', space='ud4'), dict(k='lvec', A='PD', B='M', space='ud4'), dict(k='lvec', A='A'), dict(k='lvec', A='P2'), dict(k='lvec', A='V'),
